@@ -56,6 +56,7 @@ def run(F, chk):
                 ra.ok(key, b.where(bi), "every path re-examines %s" % fld)
             else:
                 ra.violation(key, b.where(bi), "a path removes a stream and returns without re-examining the cached %s slot (dangling gid)" % fld)
+    activity_rule(F, chk)
     # ---------------- R-C15-b --------------------------------------------------
     rb = chk.rule("R-C15-b", "T4", "shrink_trailing_recycle is called only from Context::create_stream", floor=1)
     callers = sorted({b.path for b, bi, t in F.call_sites(MUX + "Context::<L>::shrink_trailing_recycle")})
@@ -244,3 +245,38 @@ def run(F, chk):
                 rg.ok(key, b.where(creates[0]), "create_stream only on a streams.len() < max_concurrent_streams edge %s" % edges)
             else:
                 rg.violation(key, b.where(creates[0]), "a peer-initiated stream can be created without passing the streams.len() < max_concurrent_streams edge")
+
+
+def activity_rule(F, chk):
+    """R-C15-h: only application payload counts as stream progress. The per-stream idle guard reclaims
+    MAX_CONCURRENT_STREAMS slots; a DATA frame refreshes `stream_last_activity_at` only behind a `> 0` test of a
+    length derived from the frame's data, never of the wire length (padding-only frames are not progress)."""
+    r = chk.rule("R-C15-h", "T5+T12", "stream activity is refreshed by DATA only for a non-empty application payload", floor=1)
+    hd = [p for p in F.paths() if p.startswith(H2) and p.endswith("::handle_data_frame")]
+    if not r.require(hd, "handle_data_frame not found"):
+        return
+    b = F.body(hd[0])
+    r.fn(b.path)
+    og = alias.Origins(b)
+    sites = [s2["bb"] for s2 in alias.field_touch(b, og, H2, "stream_last_activity_at") if s2["kind"] == "call" and s2["direct"] and s2["callee"].endswith(("::insert", "::get_mut", "::entry"))]
+    if not r.require(sites, "handle_data_frame: no update of stream_last_activity_at found"):
+        return
+    data_params = {l for l in range(1, b.argc + 1) if "parser::Data" in b.locals[l]}
+    len_params = {l for l in range(1, b.argc + 1) if b.locals[l] in ("usize", "u32")}
+    edges = []
+    for sb, f, t, atom in guards.bool_switches(b):
+        if atom[0] != "cmp":
+            continue
+        for tgt in (f, t):
+            rel = lib.relation_on_edge(b, sb, tgt)
+            if not rel:
+                continue
+            op, sa, sbb, _ = rel
+            if op in ("Gt", "Ne") and any(str(c).startswith("0_") for c in sbb["consts"]) and (sa["params"] & data_params):
+                edges.append((sb, tgt))
+    for k, bi in enumerate(sites):
+        key = "%s|activity refresh#%d" % (b.path, k)
+        if edges and lib.guarded_by(b, bi, edges):
+            r.ok(key, b.where(bi), "behind a `> 0` test of a length derived from the frame's data")
+        else:
+            r.violation(key, b.where(bi), "a DATA frame refreshes the stream's activity timestamp without a `> 0` test of its application payload length: padding-only frames keep an idle stream (and its MAX_CONCURRENT_STREAMS slot) alive forever")
